@@ -70,6 +70,8 @@ class Controller:
     def choose(self, cands):
         if self.k < len(self.choices):
             c = self.choices[self.k]
+        elif self.scn.get('cycle_order') and self.choices:
+            c = self.choices[self.k % len(self.choices)]
         else:
             c = 0
         self.k += 1
@@ -79,10 +81,18 @@ class Controller:
     def run(self):
         T = max(1, self.scn['threads'])
         for chunk in self.chunks:
-            completed = []
+            # documented in-flight set, kept incrementally: the first T + |completed| elements of the chunk have been started
+            completed = set()
+            chunk_set = set(chunk)
+            inflight = []
+            nstarted = 0
             while len(completed) < len(chunk):
-                started = chunk[: T + len(completed)]
-                expected = [e for e in started if e not in completed]
+                target = min(len(chunk), T + len(completed))
+                while nstarted < target:
+                    if chunk[nstarted] not in completed:
+                        inflight.append(chunk[nstarted])
+                    nstarted += 1
+                expected = list(inflight)
                 with self.cv:
                     ok = self.cv.wait_for(lambda: self.done or all(e in self.parked for e in expected), timeout=STALL_TIMEOUT)
                     if self.done and not self.parked:
@@ -94,11 +104,12 @@ class Controller:
                         if not cands:
                             if self.done:
                                 return
-                            completed.append(expected[0])   # give up on it
+                            completed.add(expected[0])   # give up on it
+                            inflight.remove(expected[0])
                             continue
                     else:
                         cands = list(expected)
-                        early = sorted(x for x in self.parked if x not in expected)
+                        early = sorted(x for x in self.parked if x not in inflight)
                         if early:
                             # calls the documented semantics would not have started yet are in flight: they may complete first too
                             self.deviations.append({'early_start': early})
@@ -110,10 +121,12 @@ class Controller:
                     if self.wait_notify:
                         # the next release waits until this completion has been handed to the event loop: completion
                         # order as seen by parallel_map == release order, not thread timing
-                        target = len(self.released)
-                        self.cv.wait_for(lambda: self.notified >= target or self.done, timeout=STALL_TIMEOUT)
-                if e in chunk and e not in completed:
-                    completed.append(e)
+                        target_n = len(self.released)
+                        self.cv.wait_for(lambda: self.notified >= target_n or self.done, timeout=STALL_TIMEOUT)
+                if e in chunk_set and e not in completed:
+                    completed.add(e)
+                    if e in inflight:
+                        inflight.remove(e)
         # drain anything unexpected (e.g. elements called twice)
         while True:
             with self.cv:
@@ -184,7 +197,7 @@ class PmapEngine(Engine):
         scn = {'engine': 'pmapsim', 'impl': impl, 'n': n, 'threads': threads, 'chunksize': cs, 'sort': r.random() < 0.6 or impl == 'iter',
                'bar': r.random() < 0.5, 'input': r.choice(['list', 'list', 'range', 'gen', 'iter', 'tuple', 'dictkeys']),
                'raise_at': r.choice([None, None, None, r.randrange(n)]) if n else None,
-               'values': r.choice(['distinct', 'distinct', 'equal', 'unorderable']),
+               'values': r.choice(['distinct', 'distinct', 'equal', 'unorderable', 'excobj']),
                'total': r.choice([None, None, n]),
                'order': [r.randrange(6) for _ in range(n + 2)],
                # a second, ungated call of the other implementation in the same thread afterwards (event-loop hygiene between calls)
@@ -192,6 +205,17 @@ class PmapEngine(Engine):
                'exc': r.choice(['Boom', 'Boom', 'StopIteration', 'RuntimeError', 'NotImplementedError', 'KeyError'])}
         if r.random() < 0.25:
             scn['order'] = [5] * (n + 2)    # always the newest in flight: later elements finish first
+        if n and r.random() < 0.3 and scn['input'] != 'range':
+            # one element is a value that code may mistake for "nothing": None, an empty string / tuple
+            scn['special'] = {'at': r.randrange(n), 'what': r.choice(['None', 'None', 'emptystr', 'emptytuple'])}
+        if profile == 'pmaplarge':
+            # inputs longer than the default chunk size and than any plausible internal batch; few schedule choices, cycled
+            n = r.choice([999, 1000, 1001, 1999, 2001, 3000, 4097, 10001, 10500, 20001])
+            scn.update(n=n, threads=r.choice([2, 3, 8]), impl=r.choice(['threading', 'iter', 'starmap']),
+                       chunksize=r.choice([1000, 1000, 256, 97, 4096]), sort=r.random() < 0.7, raise_at=None, then=None,
+                       total=r.choice([None, n]), order=[r.randrange(6) for _ in range(61)], cycle_order=True, values='distinct')
+            if 'special' in scn:
+                scn['special']['at'] = r.choice([0, 1000, 2000, n - 1, r.randrange(n)]) % n
         if profile == 'pmapzone':
             # known finding F13: StopIteration raised by f in a worker thread cannot be carried by an asyncio future
             scn.update(threads=max(2, threads), n=max(1, n), exc='StopIteration', then=None)
@@ -224,7 +248,18 @@ class PmapEngine(Engine):
         ctl = Controller(scn, chunks)
         vals = scn.get('values', 'distinct')
 
+        sp = scn.get('special')
+        SPECIAL = {'None': None, 'emptystr': '', 'emptytuple': ()}
+
+        def elem(x):
+            return SPECIAL[sp['what']] if sp and x == sp['at'] else x
+
+        def ident(e):
+            return e if isinstance(e, int) and not isinstance(e, bool) else (sp['at'] if sp else e)
+
         def out(x):
+            if vals == 'excobj':
+                return ValueError(x)     # an exception object as an ordinary return value
             if vals == 'equal':
                 return 42
             if vals == 'unorderable':
@@ -232,12 +267,14 @@ class PmapEngine(Engine):
             return x * 7 + 1
 
         def f(x):
+            x = ident(x)
             ctl.enter(x)
             if scn.get('raise_at') is not None and x == scn['raise_at']:
                 raise EXC[scn.get('exc', 'Boom')](f'boom {x}')
             return out(x)
 
-        inp = make_input(scn['input'], xs)
+        elems = [elem(x) for x in xs]
+        inp = make_input(scn['input'], elems)
         res = {'result': None, 'error': None}
         th = threading.Thread(target=ctl.run, daemon=True)
 
@@ -259,7 +296,7 @@ class PmapEngine(Engine):
                         kw['total'] = scn['total']
                     r = ctx['tct'].parallel_map(f, inp, **kw)
                 elif impl == 'starmap':
-                    inp2 = make_input(scn['input'] if scn['input'] not in ('range', 'dictkeys') else 'list', [(x, x + 1) for x in xs])
+                    inp2 = make_input(scn['input'] if scn['input'] not in ('range', 'dictkeys') else 'list', [(elem(x), x + 1) for x in xs])
                     r = ctx['tct'].parallel_starmap(lambda a, b: f(a), inp2, threads=T, sort=scn['sort'], use_tqdm=scn['bar'], chunksize=cs)
                 else:
                     r = ctx['tci'].parallel_map(f, inp, threads=T)
@@ -296,7 +333,7 @@ class PmapEngine(Engine):
                    controller_alive=th.is_alive())
         # chunked (pure, part of C17's statement): same inputs
         try:
-            ch = [list(c) for c in ctx['tci'].chunked(make_input(scn['input'], xs), scn['chunksize'])]
+            ch = [[ident(e) for e in c] for c in ctx['tci'].chunked(make_input(scn['input'], elems), scn['chunksize'])]
         except Exception as e:
             ch = ['error', type(e).__name__]
         res['chunked'] = ch
@@ -373,17 +410,27 @@ class PmapEngine(Engine):
         return discs, stats, [str(rel)]
 
     def shrink_candidates(self, scn):
+        if scn['n'] > 40:
+            for m in (scn['n'] // 2, scn['n'] - 1000, scn['n'] - 100):
+                if m > 0:
+                    c = copy.deepcopy(scn)
+                    c['n'] = m
+                    if c.get('special') and c['special']['at'] >= m:
+                        c['special']['at'] = m - 1
+                    yield c
         if scn['n'] > 0:
             c = copy.deepcopy(scn)
             c['n'] -= 1
             if c.get('raise_at') is not None and c['raise_at'] >= c['n']:
                 c['raise_at'] = c['n'] - 1 if c['n'] else None
+            if c.get('special') and c['special']['at'] >= c['n']:
+                c['special'] = None
             yield c
         if scn['threads'] > 2:
             c = copy.deepcopy(scn)
             c['threads'] -= 1
             yield c
-        for k, v in (('bar', False), ('input', 'list'), ('values', 'distinct'), ('total', None)):
+        for k, v in (('bar', False), ('input', 'list'), ('values', 'distinct'), ('total', None), ('special', None)):
             if scn.get(k) != v:
                 c = copy.deepcopy(scn)
                 c[k] = v
